@@ -97,7 +97,7 @@ pub fn bytes_case(data: &[u8]) -> Case {
     let h0 = data.first().cloned().unwrap_or(0);
     let h1 = data.get(1).cloned().unwrap_or(0);
     let stream = if data.len() > 2 { &data[2..] } else { &[][..] };
-    let (cols, lines) = [(4u32, 3u32), (5, 4), (1, 1), (2, 2), (10, 4), (20, 6), (80, 24), (3, 3), (1, 5), (7, 1), (40, 5), (8, 5), (30, 10), (2, 9), (9, 2), (6, 6)][(h0 & 15) as usize];
+    let (cols, lines) = [(4u32, 3u32), (5, 4), (1, 1), (2, 2), (10, 4), (20, 6), (16, 4), (3, 3), (1, 5), (7, 1), (24, 3), (8, 5), (12, 7), (2, 9), (9, 2), (6, 6)][(h0 & 15) as usize];
     let mut ops = Vec::new();
     if h0 & 16 != 0 {
         ops.push(Op::SelCharset("@".into()));
